@@ -19,7 +19,7 @@ COMPONENTS = {"real": ["mofun.replace_pattern_in_structure and everything below 
               "oracle_only": ["deletion sets D_m = match atoms - retained atoms computed by the harness from the observed decisions"]}
 ASSUMPTIONS = ["with an empty replacement the statement says no overlap error is raised: judged that way",
                "the overlap error is recognised by its class name AtomsShouldNotBeDeletedTwice"]
-NRUNS = {"quick": 1500, "thorough": 40000}
+NRUNS = {"quick": 6000, "thorough": 80000}
 MUST_REACH = ["must_raise_cases", "must_not_raise_cases_with_overlap", "ignore_flag_cases"]
 
 
@@ -101,7 +101,7 @@ def generate(rng, tier):
             "scripts": worlds.default_scripts(rng)[:3],
             "meta": {"family": fam, "cell_family": cfam, "tight_axes": [], "K": geom.amplification_K(P, None), "D": D}}
     replcheck.add_metadata(rng, spec)
-    spec["replace"] = replcheck.gen_replacement(rng, els, P, mode=rng.choice(["smaller", "smaller", "equal_subst", "larger", "identity", "empty", "disjoint", "equal"]))
+    spec["replace"] = replcheck.gen_replacement(rng, els, P, mode=rng.choice(["smaller", "smaller", "equal_subst", "larger", "identity", "empty", "disjoint", "equal", "relaxed", "relaxed"]))
     spec["fraction"] = rng.choice([1.0, 1.0, 1.0, 0.5, 0.75])
     spec["replace_all"] = rng.random() < 0.2
     spec["ignore"] = rng.random() < 0.2
